@@ -62,7 +62,7 @@ def _run(level, cfg, events, var, perm):
                                  place=var.get("place", "call"),
                                  async_callbacks=var.get("async_callbacks", False),
                                  wall=var.get("wall", "jump"), atimeout=var.get("atimeout", False),
-                                 loop=var.get("loop", False))
+                                 loop=var.get("loop", False), flavours=var.get("flavours"))
 
 
 def _full(level, cfg):
@@ -85,6 +85,8 @@ def _replay_chunk(chunk):
         cfg = configs[cid - 1]
         wallobs: dict = {}
         for vi, var in enumerate(variants):
+            if idx % var.get("every", 1):
+                continue
             perm = retryenv.class_perm(sd * 1000003 + idx * 31 + vi) if var.get("permute") else None
             try:
                 obs = _run(level, cfg, events, var, perm)
@@ -138,7 +140,7 @@ def random_scenario(rng: random.Random, focus: str) -> tuple[dict, list[dict]]:
         "maxAtt": rng.choice([1, 2, 3, 4, 5, 6]),
         "lim": {k: (rng.choice([0, 1, 2, 3]) if rng.random() < 0.25 else -1) for k in classes},
         "maxUnk": rng.choice([-1, 0, 1, 2, 3]),
-        "D": rng.choice([0, 1, 3, 7, 20, 50, 1000, 1000]),
+        "D": rng.choice([0, 1, 3, 7, 20, 50, 1000, 1000, 11059200]),
         "hasDefault": has_default,
         "strat": strat,
         "legacy": [n for n in names if rng.random() < 0.3],
@@ -171,7 +173,7 @@ def random_scenario(rng: random.Random, focus: str) -> tuple[dict, list[dict]]:
         ev.append({"e": "invoke", "out": out, "k": k, "ra": ra, "dur": rng.choice([0, 0, 1, 2, 5, 11])})
         r = rng.random()
         if r < 0.7:
-            ret = {"kind": "val", "v": rng.choice([0, 1, 1, 2, 3, 6, 17, 2000])}
+            ret = {"kind": "val", "v": rng.choice([0, 1, 1, 2, 3, 6, 17, 2000, 6000000])}
         elif r < 0.8:
             ret = {"kind": "val", "v": -rng.choice([1, 5])}
         else:
@@ -206,13 +208,20 @@ def _random_chunk(args):
         # a multi-run script: split the environment script evenly is unnecessary - queues are
         # global across runs; the deliver markers give the number of runs and the mode
         try:
+            flav = rng.choice([None, "all"])
+            atime = rng.random() < 0.15
+            loop = False
+            if atime and entry.startswith("Async"):
+                # asyncio.wait_for needs a running event loop, and that needs awaitable callbacks
+                loop, acb = True, True
             obs = retryenv.run_scenario(cfg, ev, entry=entry, perm=perm, place=place,
-                                        async_callbacks=acb)
+                                        async_callbacks=acb, flavours=flav, atimeout=atime, loop=loop)
         except Exception as exc:  # noqa: BLE001
             obs = [{"e": "harness-error", "what": f"{type(exc).__name__}: {exc}"}]
         out.append({"cfg": full_cfg(cfg), "ev": obs,
                     "variant": {"entry": entry, "place": place, "async_callbacks": acb,
-                                "permute": perm is not None}, "script": ev})
+                                "permute": perm is not None, "flavours": flav, "atimeout": atime,
+                                "loop": loop}, "script": ev})
     return out
 
 
@@ -237,14 +246,17 @@ def profile(prop: str, **kw) -> None:
 
 
 SYNC_ASYNC = [{"entry": "Retry", "permute": False}, {"entry": "AsyncRetry", "permute": True}]
-FOUR = [{"entry": "Retry", "permute": False, "place": "both"},
-        {"entry": "AsyncRetry", "permute": True, "wall": "back"},
+FOUR = [{"entry": "Retry", "permute": False, "place": "both", "flavours": "all"},
+        {"entry": "AsyncRetry", "permute": True, "wall": "back", "flavours": "all"},
         {"entry": "Retry", "permute": True, "place": "ctor", "wall": "frozen"},
         {"entry": "AsyncRetry", "permute": False, "place": "ctor", "async_callbacks": True},
         {"entry": "AsyncRetry", "permute": True, "place": "both", "async_callbacks": "lambda"}]
 
-TIMEOUT_VARIANTS = [{"entry": "Retry", "atimeout": True, "place": "ctor"},
-                    {"entry": "AsyncRetry", "atimeout": True, "loop": True, "async_callbacks": True}]
+TIMEOUT_VARIANTS = [{"entry": "Retry", "atimeout": True, "place": "ctor", "flavours": "all"},
+                    {"entry": "AsyncRetry", "atimeout": True, "loop": True, "async_callbacks": True,
+                     "flavours": "all"}]
+# an attempt timeout longer than the deadline must not move the deadline (every 5th behaviour)
+TIMEOUT_SAMPLED = [dict(v, every=5) for v in TIMEOUT_VARIANTS]
 WALL = [{"entry": "Retry", "wall": "jump", "wallgroup": "s"},
         {"entry": "Retry", "wall": "frozen", "wallgroup": "s"},
         {"entry": "Retry", "wall": "back", "wallgroup": "s"},
@@ -253,10 +265,10 @@ WALL = [{"entry": "Retry", "wall": "jump", "wallgroup": "s"},
 
 for _p in ("C01", "C02", "C03", "C04", "C05", "C10", "C11", "C13", "C14", "C16"):
     profile(_p, mc=f"RetryMC_{_p}.cfg", export=f"RetryMC_{_p}x.cfg",
-            variants=WALL if _p == "C02" else (FOUR + TIMEOUT_VARIANTS if _p in ("C13", "C01") else
+            variants=WALL + TIMEOUT_SAMPLED if _p == "C02" else (FOUR + TIMEOUT_VARIANTS if _p in ("C13", "C01") else
                                                (FOUR[:3] if _p == "C10" else FOUR)),
             n_random={"quick": 1500, "thorough": 30000},
-            exports_extra=["RetryMC_C10y.cfg"] if _p == "C10" else [])
+            exports_extra={"C10": ["RetryMC_C10y.cfg"], "C05": ["RetryMC_C05y.cfg"]}.get(_p, []))
 
 
 def export_behaviours(cfgfile: str, tag: str, module: str = "RetryMC.tla"):
